@@ -165,6 +165,8 @@ fn churn(g: &mut Gen) {
     g.cfg.weights.leave += 1;
     g.cfg.weights.msg += 4;
     g.cfg.weights.rotate = g.cfg.weights.rotate.max(1);
+    // removals that follow a commit race (the removed client may see the loser first)
+    g.cfg.weights.fork += 2;
     // evicted clients keep trying to send
     g.ex_members_send = true;
     g.feed_outsiders = true;
